@@ -7,6 +7,7 @@
 #include <math.h>
 #include <stdio.h>
 #include <stdlib.h>
+#include <string.h>
 
 /* Handle compiler warnings about implicit variable conversion in PARSENUM. */
 #ifdef __clang__
@@ -191,6 +192,10 @@ parsenum_unsigned(const char * s, uintmax_t min, uintmax_t max,
 		errno = EINVAL;
 	else if ((val < min) || (val > max) || (val > typemax))
 		errno = ERANGE;
+	else if ((val != 0) && (s[strspn(s, " \t\n\v\f\r")] == '-')) {
+		/* strtoumax() accepts "-N" and returns 2^k - N. */
+		errno = ERANGE;
+	}
 	return (val);
 }
 
